@@ -103,6 +103,13 @@ class Unit:
                 src = X.read_repo(o['file'])
                 cppdefs = [d for d in o.get('cpp', '').split(',') if d] + list(defs)
                 text, names, line = X.extract_struct(src, o['name'], cppdefs)
+                for rt in [r for r in o.get('retype', '').split(',') if r]:
+                    fld, ty = rt.split(':')
+                    text, k = re.subn(r'^(\s*)[\w:<>\s*]+?\b' + fld + r';', r'\1' + ty + ' ' + fld + ';', text, flags=re.M)
+                    if k != 1:
+                        raise X.ExtractError('%s: retype of field %s.%s failed' % (self.name, o['name'], fld))
+                if o.get('as'):
+                    text = text.replace('struct ' + o['name'] + ' {', 'struct ' + o['as'] + ' {', 1)
                 info['functions'].append(dict(name='struct ' + o['name'], file=o['file'], line=line,
                                               sha=hashlib.sha1(text.encode()).hexdigest()[:12], rules={'R6.fields': len(names)}))
                 info.setdefault('fields', {})[o['name']] = names
